@@ -1,4 +1,5 @@
 import Proofs.Observe.Exec
+import Proofs.Observe.FailExec
 import Proofs.Observe.StepSpec2
 import Proofs.Observe.StepSpec3
 /-!
@@ -183,8 +184,8 @@ theorem absorbTask_id (os : List MsgLayer.Out) (t : Task) :
   · exact cancelTask_id t
   · exact SameId.refl t
 
-theorem Inv_absorb {c : State} (h : Inv c) {ml' : MsgLayer.State} {os : List MsgLayer.Out}
-    (hs : SrvStep c.ml ml' os) : Inv (absorb { c with ml := ml' } os) := by
+theorem Inv_absorbW {c : State} (h : Inv c) {ml' : MsgLayer.State} {os : List MsgLayer.Out}
+    (hs : SrvStepW c.ml ml' os) : Inv (absorb { c with ml := ml' } os) := by
   have hsrv : (c.tasks.map (fun t => if stops os t.srv then cancelTask t else t)).map (·.srv) =
       c.tasks.map (·.srv) := by
     rw [List.map_map]; apply List.map_congr_left; intro t _; exact (absorbTask_id os t).1
@@ -263,6 +264,9 @@ theorem Inv_absorb {c : State} (h : Inv c) {ml' : MsgLayer.State} {os : List Msg
       · exact h.ok t ht
     · obtain ⟨sv', r, w, _, rfl⟩ := mem_delivered.mp ht'
       exact newTask_ok _ _ _ _
+
+theorem Inv_absorb {c : State} (h : Inv c) {ml' : MsgLayer.State} {os : List MsgLayer.Out}
+    (hs : SrvStep c.ml ml' os) : Inv (absorb { c with ml := ml' } os) := Inv_absorbW h hs.weak
 
 theorem Inv_netEvent {c : State} (h : Inv c) (e : MsgLayer.Ev) (he : netEv e = true) :
     Inv (netEvent c e).1 :=
@@ -420,6 +424,27 @@ theorem Inv_stepEv {c : State} (h : Inv c) (sv : Nat) (plan : Plan) (acc : Bool)
     subst hsv
     exact Inv_stepTask h ht plan acc
 
+/-- a step during which the transport fails a send: the ordinary step's result with the message
+layer of the failing one, and the tasks of the pipes the transport error stopped cancelled -/
+theorem Inv_stepFailEv {c : State} (h : Inv c) (sv : Nat) (plan : Plan) (acc : Bool) :
+    Inv (handle c (.stepFail sv plan acc)).1 := by
+  simp only [handle]
+  cases hf : findTask c sv with
+  | none => exact h
+  | some t =>
+    obtain ⟨ht, hsv⟩ := findTask_some hf
+    subst hsv
+    have hN := Inv_stepTask h ht plan acc
+    have hsim := (execF_sim t.srv (stepTask c.value t plan acc).2 (Sim.refl c)).1
+    have hsrv := execF_srv t.srv (stepTask c.value t plan acc).2 c h.wf.sinv
+    have heq : putTask (execF c t.srv (stepTask c.value t plan acc).2).1 (stepTask c.value t plan acc).1 =
+        { putTask (exec c t.srv (stepTask c.value t plan acc).2).1 (stepTask c.value t plan acc).1 with
+          ml := (execF c t.srv (stepTask c.value t plan acc).2).1.ml } := by
+      simp only [putTask, hsim.tasks, hsim.obs, hsim.value, hsim.maxRetr]
+    show Inv (absorb (putTask _ _) _)
+    rw [heq]
+    exact Inv_absorbW hN hsrv
+
 /-- **the invariant is preserved by every event** -/
 theorem Inv_handle {c : State} (h : Inv c) (ev : Ev) : Inv (handle c ev).1 := by
   cases ev with
@@ -434,6 +459,7 @@ theorem Inv_handle {c : State} (h : Inv c) (ev : Ev) : Inv (handle c ev).1 := by
   | deregister sv => exact Inv_deregister h sv
   | release sv code exc => exact Inv_release h sv code exc
   | step sv plan acc => exact Inv_stepEv h sv plan acc
+  | stepFail sv plan acc => exact Inv_stepFailEv h sv plan acc
 
 theorem Inv_setNow {c : State} (h : Inv c) (t : Nat) : Inv { c with ml := MsgLayer.setNow c.ml t } :=
   ⟨⟨h.wf.nd, h.wf.lt, ⟨h.wf.sinv.nd, h.wf.sinv.lt⟩⟩, ⟨h.pipe.p1, h.pipe.p2⟩, ⟨h.count.nd, h.count.mem⟩, h.ok⟩
